@@ -1,2 +1,848 @@
-// placeholder pass-through shim (replaced by the Layer W scheduler shim)
+// Scheduler shim for the verification of stakker's `sync` module (Layer W).
+//
+// This file is `include!`d into the stakker crate as `stakker::verif_std` when the crate is
+// built with `--cfg uazu_stakker_verif` (env UAZU_STAKKER_VERIF_STD points here).  The three
+// files src/sync/{waker,channel,thread}.rs then say `use crate::verif_std as std;`, so every
+// `std::...` path in them resolves into this module.
+//
+// Everything is re-exported from the real `std` except
+//   sync::atomic::AtomicUsize   (wraps the real one; every operation is a controller step)
+//   sync::{Mutex, MutexGuard, Condvar}
+//   thread::spawn
+//
+// PASS-THROUGH: while the controller is inactive (the default), or on a thread that is not
+// registered with the controller, every one of these behaves exactly like the std type it
+// wraps (one relaxed load of a flag and one thread-local read of overhead).
+//
+// CONTROLLED MODE (between `ctl::begin` and `ctl::end`): registered threads are real OS threads
+// but exactly one of them runs at a time (a baton).  A thread gives up the baton at a *yield
+// point*, which sits immediately BEFORE every intercepted operation.  One scheduling decision =
+// one step = the intercepted operation plus the thread-local code that follows it up to the next
+// yield point.  Threads whose next operation is a `lock` of a mutex held by another thread, or
+// that sit in `Condvar::wait` without having been notified, are not schedulable.  If no thread is
+// schedulable while some thread has not finished, that is a deadlock: the abort hook is called with
+// the event log and the process exits.
+
 pub use ::std::*;
+
+#[allow(dead_code)]
+pub mod ctl {
+    use ::std::cell::Cell;
+    use ::std::collections::HashMap;
+    use ::std::sync::atomic::{AtomicBool, Ordering};
+    use ::std::sync::{Condvar, Mutex, MutexGuard};
+
+    /// One logged event.  `kind`:
+    ///   "A"  atomic op      obj=address a=old b=new text="<op> <ordering>"
+    ///   "L"  mutex lock     obj=mutex address
+    ///   "U"  mutex unlock   obj=mutex address
+    ///   "CW" condvar wait (release mutex, enter wait set)   obj=condvar a=mutex
+    ///   "CR" condvar wake-up (re-acquire mutex)             obj=condvar a=mutex
+    ///   "N"  notify         obj=condvar a=number of controlled waiters released
+    ///   "S"  thread start
+    ///   "J"  join_all
+    ///   "X"  abort (deadlock / step limit)   text=reason
+    ///   anything else: harness events logged through `yield_event` / `note`
+    #[derive(Clone, Debug)]
+    pub struct Event {
+        pub step: u64,
+        pub tid: usize,
+        pub kind: &'static str,
+        pub obj: usize,
+        pub a: usize,
+        pub b: usize,
+        pub text: String,
+    }
+
+    #[derive(Clone, Debug)]
+    pub enum Sched {
+        /// Run these thread ids in this order; entries naming a thread that is not schedulable are
+        /// skipped (counted in `Report::skipped`); afterwards seeded random choice.
+        Tids(Vec<usize>),
+        /// Priority schedule (PCT): always run the schedulable thread of highest priority; at the
+        /// given step numbers the thread chosen at that step drops below every other priority.
+        /// Threads beyond `prio.len()` get priority 1000 - tid.
+        Pct { prio: Vec<u64>, change: Vec<u64> },
+    }
+
+    #[derive(Clone, Debug)]
+    pub struct Config {
+        pub sched: Sched,
+        pub seed: u64,
+        pub max_steps: u64,
+    }
+
+    #[derive(Clone, Debug, Default)]
+    pub struct Report {
+        pub events: Vec<Event>,
+        /// the thread id chosen at each step (step numbers start at 1; main's code before its
+        /// first yield point belongs to "step 0")
+        pub tids: Vec<usize>,
+        pub skipped: u64,
+        pub aborted: Option<String>,
+        pub threads: usize,
+    }
+
+    #[derive(Clone, Copy, PartialEq, Debug)]
+    enum Next {
+        Any,
+        Lock(usize),
+        Join, // schedulable once every other thread has finished
+    }
+
+    #[derive(Clone, Copy, PartialEq, Debug)]
+    enum St {
+        Running,
+        Ready(Next),
+        CvWait(usize, usize), // (condvar, mutex): in the wait set, not notified
+        Finished,
+    }
+
+    struct Ctl {
+        active: bool,
+        th: Vec<St>,
+        current: Option<usize>,
+        owner: HashMap<usize, usize>,
+        cfg: Config,
+        pos: usize,
+        prio: Vec<u64>,
+        nchange: u64,
+        rng: u64,
+        step: u64,
+        rep: Report,
+        done: bool,
+        hook: Option<Box<dyn FnOnce(&Report) + Send>>,
+    }
+
+    static ACTIVE: AtomicBool = AtomicBool::new(false);
+    static CTL: Mutex<Option<Ctl>> = Mutex::new(None);
+    static CV: Condvar = Condvar::new();
+
+    thread_local! {
+        static TID: Cell<Option<usize>> = const { Cell::new(None) };
+    }
+
+    fn lock_ctl() -> MutexGuard<'static, Option<Ctl>> {
+        CTL.lock().unwrap_or_else(|e| e.into_inner())
+    }
+
+    /// Thread id of the calling thread if the controller is active and the thread is registered.
+    #[inline]
+    pub fn tid() -> Option<usize> {
+        if !ACTIVE.load(Ordering::Relaxed) {
+            return None;
+        }
+        TID.try_with(|t| t.get()).ok().flatten()
+    }
+
+    pub fn is_active() -> bool {
+        ACTIVE.load(Ordering::Relaxed)
+    }
+
+    impl Ctl {
+        fn log(&mut self, tid: usize, kind: &'static str, obj: usize, a: usize, b: usize, text: String) {
+            let step = self.step;
+            self.rep.events.push(Event { step, tid, kind, obj, a, b, text });
+        }
+
+        fn enabled(&self, t: usize) -> bool {
+            match self.th[t] {
+                St::Ready(Next::Any) => true,
+                St::Ready(Next::Lock(m)) => !self.owner.contains_key(&m),
+                St::Ready(Next::Join) => (0..self.th.len()).all(|u| u == t || self.th[u] == St::Finished),
+                _ => false,
+            }
+        }
+
+        fn next_rand(&mut self) -> u64 {
+            // xorshift64*
+            let mut x = self.rng;
+            x ^= x >> 12;
+            x ^= x << 25;
+            x ^= x >> 27;
+            self.rng = x;
+            x.wrapping_mul(0x2545F4914F6CDD1D)
+        }
+
+        fn prio_of(&mut self, t: usize) -> u64 {
+            while self.prio.len() <= t {
+                let k = self.prio.len() as u64;
+                self.prio.push(100_000u64.saturating_sub(k));
+            }
+            self.prio[t]
+        }
+
+        /// Choose the next thread to run.  Returns Err(reason) on deadlock / step limit.
+        fn pick_next(&mut self) -> Result<(), String> {
+            self.current = None;
+            let en: Vec<usize> = (0..self.th.len()).filter(|&t| self.enabled(t)).collect();
+            if en.is_empty() {
+                if self.th.iter().all(|s| *s == St::Finished) {
+                    self.done = true;
+                    return Ok(());
+                }
+                return Err("deadlock".to_string());
+            }
+            if self.step >= self.cfg.max_steps {
+                return Err("steplimit".to_string());
+            }
+            let mut choice = None;
+            match &self.cfg.sched {
+                Sched::Tids(v) => {
+                    while self.pos < v.len() {
+                        let t = v[self.pos];
+                        self.pos += 1;
+                        if en.contains(&t) {
+                            choice = Some(t);
+                            break;
+                        }
+                        self.rep.skipped += 1;
+                    }
+                    if choice.is_none() {
+                        let k = (self.next_rand() % en.len() as u64) as usize;
+                        choice = Some(en[k]);
+                    }
+                }
+                Sched::Pct { change, .. } => {
+                    let change = change.clone();
+                    let mut best = en[0];
+                    for &t in &en {
+                        if self.prio_of(t) > self.prio_of(best) {
+                            best = t;
+                        }
+                    }
+                    if change.contains(&(self.step + 1)) {
+                        self.nchange += 1;
+                        let low = 1000u64.saturating_sub(self.nchange);
+                        self.prio_of(best);
+                        self.prio[best] = low;
+                    }
+                    choice = Some(best);
+                }
+            }
+            let t = choice.unwrap();
+            self.step += 1;
+            self.rep.tids.push(t);
+            self.th[t] = St::Running;
+            self.current = Some(t);
+            Ok(())
+        }
+    }
+
+    fn abort(mut g: MutexGuard<'static, Option<Ctl>>, reason: String) -> ! {
+        let (hook, rep) = {
+            let c = g.as_mut().unwrap();
+            let step = c.step;
+            c.rep.events.push(Event { step, tid: 0, kind: "X", obj: 0, a: 0, b: 0, text: reason.clone() });
+            c.rep.aborted = Some(reason.clone());
+            c.rep.threads = c.th.len();
+            (c.hook.take(), c.rep.clone())
+        };
+        drop(g);
+        match hook {
+            Some(h) => {
+                h(&rep);
+                ::std::process::exit(0)
+            }
+            None => {
+                eprintln!("verif_std::ctl: {} with no abort hook", reason);
+                ::std::process::exit(101)
+            }
+        }
+    }
+
+    /// Give up the baton with `next` as the operation the thread is about to perform; returns when
+    /// the thread has been scheduled again (and, for Lock, the mutex is free).
+    fn yield_with(me: usize, next: Next) {
+        let mut g = lock_ctl();
+        {
+            let c = match g.as_mut() {
+                Some(c) if c.active => c,
+                _ => return,
+            };
+            c.th[me] = St::Ready(next);
+            if let Err(r) = c.pick_next() {
+                abort(g, r);
+            }
+        }
+        CV.notify_all();
+        wait_baton(g, me);
+    }
+
+    fn wait_baton(mut g: MutexGuard<'static, Option<Ctl>>, me: usize) {
+        loop {
+            match g.as_ref() {
+                Some(c) if c.active => {
+                    if c.current == Some(me) {
+                        return;
+                    }
+                }
+                _ => return,
+            }
+            g = CV.wait(g).unwrap_or_else(|e| e.into_inner());
+        }
+    }
+
+    // ---- API for the harness -------------------------------------------------------------
+
+    /// Activate the controller and register the calling thread as thread 0 (it holds the baton).
+    /// `hook` is called (on whichever thread detects it) with the report when the run is aborted
+    /// because of a deadlock or the step limit; the process exits afterwards.
+    pub fn begin(cfg: Config, hook: Box<dyn FnOnce(&Report) + Send>) {
+        let mut g = lock_ctl();
+        let prio = match &cfg.sched {
+            Sched::Pct { prio, .. } => prio.clone(),
+            _ => Vec::new(),
+        };
+        let seed = cfg.seed;
+        *g = Some(Ctl {
+            active: true,
+            th: vec![St::Running],
+            current: Some(0),
+            owner: HashMap::new(),
+            cfg,
+            pos: 0,
+            prio,
+            nchange: 0,
+            rng: seed.wrapping_mul(0x9E3779B97F4A7C15) | 1,
+            step: 0,
+            rep: Report::default(),
+            done: false,
+            hook: Some(hook),
+        });
+        TID.with(|t| t.set(Some(0)));
+        ACTIVE.store(true, Ordering::SeqCst);
+    }
+
+    /// The calling thread (thread 0) has finished its script: let every other thread run to
+    /// completion, deactivate the controller and return the report.
+    pub fn end() -> Report {
+        let me = match tid() {
+            Some(t) => t,
+            None => return Report::default(),
+        };
+        let mut g = lock_ctl();
+        {
+            let c = g.as_mut().unwrap();
+            c.th[me] = St::Finished;
+            if let Err(r) = c.pick_next() {
+                abort(g, r);
+            }
+        }
+        CV.notify_all();
+        loop {
+            if g.as_ref().unwrap().done {
+                break;
+            }
+            g = CV.wait(g).unwrap_or_else(|e| e.into_inner());
+        }
+        let mut c = g.take().unwrap();
+        ACTIVE.store(false, Ordering::SeqCst);
+        TID.with(|t| t.set(None));
+        drop(g);
+        CV.notify_all();
+        c.rep.threads = c.th.len();
+        c.rep
+    }
+
+    /// A harness-level yield point that starts a new step and logs an event in it.
+    pub fn yield_event(kind: &'static str, text: String) {
+        if let Some(me) = tid() {
+            yield_with(me, Next::Any);
+            let mut g = lock_ctl();
+            if let Some(c) = g.as_mut() {
+                c.log(me, kind, 0, 0, 0, text);
+            }
+        }
+    }
+
+    /// A yield point that is schedulable only when every other registered thread has finished
+    /// (logs a "J" event).  If some other thread can never finish this ends in a deadlock abort.
+    pub fn join_all() {
+        if let Some(me) = tid() {
+            yield_with(me, Next::Join);
+            let mut g = lock_ctl();
+            if let Some(c) = g.as_mut() {
+                c.log(me, "J", 0, 0, 0, String::new());
+            }
+        }
+    }
+
+    /// Log a harness-level event inside the current step (no yield).
+    pub fn note(kind: &'static str, text: String) {
+        if let Some(me) = tid() {
+            let mut g = lock_ctl();
+            if let Some(c) = g.as_mut() {
+                c.log(me, kind, 0, 0, 0, text);
+            }
+        }
+    }
+
+    // ---- used by the wrappers below ------------------------------------------------------
+
+    pub(super) fn atomic_pre() -> Option<usize> {
+        let me = tid()?;
+        yield_with(me, Next::Any);
+        Some(me)
+    }
+
+    pub(super) fn atomic_post(me: usize, obj: usize, op: &str, ord: Ordering, old: usize, new: usize) {
+        let mut g = lock_ctl();
+        if let Some(c) = g.as_mut() {
+            c.log(me, "A", obj, old, new, format!("{} {:?}", op, ord));
+        }
+    }
+
+    pub(super) fn lock_pre(m: usize) -> Option<usize> {
+        let me = tid()?;
+        yield_with(me, Next::Lock(m));
+        let mut g = lock_ctl();
+        if let Some(c) = g.as_mut() {
+            c.owner.insert(m, me);
+            c.log(me, "L", m, 0, 0, String::new());
+        }
+        Some(me)
+    }
+
+    /// Called with the baton, before the real guard is released.
+    pub(super) fn unlock_pre(me: usize) {
+        if tid() == Some(me) {
+            yield_with(me, Next::Any);
+        }
+    }
+
+    /// Called after the real guard has been released.
+    pub(super) fn unlock_post(me: usize, m: usize) {
+        if tid() == Some(me) {
+            let mut g = lock_ctl();
+            if let Some(c) = g.as_mut() {
+                c.owner.remove(&m);
+                c.log(me, "U", m, 0, 0, String::new());
+            }
+        }
+    }
+
+    pub(super) fn cv_wait_pre(me: usize) {
+        if tid() == Some(me) {
+            yield_with(me, Next::Any);
+        }
+    }
+
+    /// The real guard has been released: enter the wait set, pass the baton, come back when
+    /// notified and the mutex is free; the mutex is then owned again.
+    pub(super) fn cv_wait(me: usize, cv: usize, m: usize) {
+        if tid() != Some(me) {
+            return;
+        }
+        let mut g = lock_ctl();
+        {
+            let c = match g.as_mut() {
+                Some(c) if c.active => c,
+                _ => return,
+            };
+            c.owner.remove(&m);
+            c.log(me, "CW", cv, m, 0, String::new());
+            c.th[me] = St::CvWait(cv, m);
+            if let Err(r) = c.pick_next() {
+                abort(g, r);
+            }
+        }
+        CV.notify_all();
+        wait_baton(g, me);
+        let mut g = lock_ctl();
+        if let Some(c) = g.as_mut() {
+            c.owner.insert(m, me);
+            c.log(me, "CR", cv, m, 0, String::new());
+        }
+    }
+
+    pub(super) fn notify(cv: usize, all: bool) {
+        if let Some(me) = tid() {
+            yield_with(me, Next::Any);
+            let mut g = lock_ctl();
+            if let Some(c) = g.as_mut() {
+                let mut n = 0;
+                for t in 0..c.th.len() {
+                    if let St::CvWait(cv2, m) = c.th[t] {
+                        if cv2 == cv && (all || n == 0) {
+                            c.th[t] = St::Ready(Next::Lock(m));
+                            n += 1;
+                        }
+                    }
+                }
+                c.log(me, "N", cv, n, 0, String::new());
+            }
+        }
+    }
+
+    pub(super) fn register_child() -> Option<usize> {
+        tid()?;
+        let mut g = lock_ctl();
+        let c = g.as_mut()?;
+        c.th.push(St::Ready(Next::Any));
+        Some(c.th.len() - 1)
+    }
+
+    pub(super) fn child_start(me: usize) {
+        TID.with(|t| t.set(Some(me)));
+        let g = lock_ctl();
+        wait_baton(g, me);
+        let mut g = lock_ctl();
+        if let Some(c) = g.as_mut() {
+            c.log(me, "S", 0, 0, 0, String::new());
+        }
+    }
+
+    pub(super) fn child_exit(me: usize) {
+        let was = tid();
+        let _ = TID.try_with(|t| t.set(None));
+        if was != Some(me) {
+            return;
+        }
+        let mut g = lock_ctl();
+        {
+            let c = match g.as_mut() {
+                Some(c) if c.active => c,
+                _ => return,
+            };
+            c.th[me] = St::Finished;
+            if let Err(r) = c.pick_next() {
+                abort(g, r);
+            }
+        }
+        drop(g);
+        CV.notify_all();
+    }
+}
+
+pub mod thread {
+    pub use ::std::thread::*;
+
+    /// `std::thread::spawn`; when called by a controlled thread the new thread is registered
+    /// with the controller (thread ids are handed out in spawn order) and runs only with the baton.
+    pub fn spawn<F, T>(f: F) -> ::std::thread::JoinHandle<T>
+    where
+        F: FnOnce() -> T + Send + 'static,
+        T: Send + 'static,
+    {
+        match super::ctl::register_child() {
+            None => ::std::thread::spawn(f),
+            Some(child) => ::std::thread::spawn(move || {
+                super::ctl::child_start(child);
+                let r = ::std::panic::catch_unwind(::std::panic::AssertUnwindSafe(f));
+                super::ctl::child_exit(child);
+                match r {
+                    Ok(v) => v,
+                    Err(e) => ::std::panic::resume_unwind(e),
+                }
+            }),
+        }
+    }
+}
+
+pub mod sync {
+    pub use ::std::sync::*;
+
+    use ::std::fmt;
+    use ::std::ops::{Deref, DerefMut};
+    // (named through the glob re-export above; a private `use` here would hide them from users)
+    use ::std::sync::PoisonError as PErr;
+    use ::std::sync::TryLockError as TLErr;
+
+    pub mod atomic {
+        pub use ::std::sync::atomic::*;
+
+        /// `std::sync::atomic::AtomicUsize`; on a controlled thread every operation is preceded by
+        /// a yield point and logged as (address, op, old -> new).
+        #[derive(Default)]
+        #[repr(transparent)]
+        pub struct AtomicUsize(::std::sync::atomic::AtomicUsize);
+
+        macro_rules! rmw {
+            ($name:ident, $new:expr) => {
+                #[inline]
+                pub fn $name(&self, val: usize, order: Ordering) -> usize {
+                    let t = super::super::ctl::atomic_pre();
+                    let old = self.0.$name(val, order);
+                    if let Some(me) = t {
+                        let f: fn(usize, usize) -> usize = $new;
+                        super::super::ctl::atomic_post(me, self.addr(), stringify!($name), order, old, f(old, val));
+                    }
+                    old
+                }
+            };
+        }
+
+        impl AtomicUsize {
+            #[inline]
+            pub const fn new(v: usize) -> Self {
+                Self(::std::sync::atomic::AtomicUsize::new(v))
+            }
+            #[inline]
+            fn addr(&self) -> usize {
+                self as *const Self as usize
+            }
+            #[inline]
+            pub fn into_inner(self) -> usize {
+                self.0.into_inner()
+            }
+            #[inline]
+            pub fn get_mut(&mut self) -> &mut usize {
+                self.0.get_mut()
+            }
+            #[inline]
+            pub fn load(&self, order: Ordering) -> usize {
+                let t = super::super::ctl::atomic_pre();
+                let v = self.0.load(order);
+                if let Some(me) = t {
+                    super::super::ctl::atomic_post(me, self.addr(), "load", order, v, v);
+                }
+                v
+            }
+            #[inline]
+            pub fn store(&self, val: usize, order: Ordering) {
+                let t = super::super::ctl::atomic_pre();
+                if let Some(me) = t {
+                    // only one controlled thread runs at a time, so reading the old value for
+                    // the log does not change what the store does
+                    let old = self.0.load(Ordering::Relaxed);
+                    self.0.store(val, order);
+                    super::super::ctl::atomic_post(me, self.addr(), "store", order, old, val);
+                } else {
+                    self.0.store(val, order);
+                }
+            }
+            rmw!(swap, |_o, v| v);
+            rmw!(fetch_or, |o, v| o | v);
+            rmw!(fetch_and, |o, v| o & v);
+            rmw!(fetch_xor, |o, v| o ^ v);
+            rmw!(fetch_add, |o, v| o.wrapping_add(v));
+            rmw!(fetch_sub, |o, v| o.wrapping_sub(v));
+            rmw!(fetch_max, |o, v| o.max(v));
+            rmw!(fetch_min, |o, v| o.min(v));
+            #[inline]
+            pub fn compare_exchange(&self, current: usize, new: usize, success: Ordering, failure: Ordering) -> Result<usize, usize> {
+                let t = super::super::ctl::atomic_pre();
+                let r = self.0.compare_exchange(current, new, success, failure);
+                if let Some(me) = t {
+                    match r {
+                        Ok(old) => super::super::ctl::atomic_post(me, self.addr(), "cas_ok", success, old, new),
+                        Err(old) => super::super::ctl::atomic_post(me, self.addr(), "cas_fail", failure, old, old),
+                    }
+                }
+                r
+            }
+            #[inline]
+            pub fn compare_exchange_weak(&self, current: usize, new: usize, success: Ordering, failure: Ordering) -> Result<usize, usize> {
+                if super::super::ctl::tid().is_some() {
+                    // no spurious failures under the controller (keeps runs deterministic)
+                    self.compare_exchange(current, new, success, failure)
+                } else {
+                    self.0.compare_exchange_weak(current, new, success, failure)
+                }
+            }
+        }
+
+        impl ::std::fmt::Debug for AtomicUsize {
+            fn fmt(&self, f: &mut ::std::fmt::Formatter<'_>) -> ::std::fmt::Result {
+                ::std::fmt::Debug::fmt(&self.0, f)
+            }
+        }
+
+        impl From<usize> for AtomicUsize {
+            fn from(v: usize) -> Self {
+                Self::new(v)
+            }
+        }
+    }
+
+    /// `std::sync::Mutex`; lock and unlock are controller steps on a controlled thread.
+    #[derive(Default)]
+    pub struct Mutex<T: ?Sized> {
+        inner: ::std::sync::Mutex<T>,
+    }
+
+    pub struct MutexGuard<'a, T: ?Sized + 'a> {
+        g: Option<::std::sync::MutexGuard<'a, T>>,
+        m: &'a Mutex<T>,
+        tid: Option<usize>,
+    }
+
+    impl<T> Mutex<T> {
+        #[inline]
+        pub const fn new(t: T) -> Self {
+            Self { inner: ::std::sync::Mutex::new(t) }
+        }
+        pub fn into_inner(self) -> LockResult<T> {
+            self.inner.into_inner()
+        }
+    }
+
+    impl<T: ?Sized> Mutex<T> {
+        #[inline]
+        fn addr(&self) -> usize {
+            self as *const Self as *const u8 as usize
+        }
+
+        pub fn lock(&self) -> LockResult<MutexGuard<'_, T>> {
+            let tid = super::ctl::lock_pre(self.addr());
+            match self.inner.lock() {
+                Ok(g) => Ok(MutexGuard { g: Some(g), m: self, tid }),
+                Err(p) => Err(PErr::new(MutexGuard { g: Some(p.into_inner()), m: self, tid })),
+            }
+        }
+
+        pub fn try_lock(&self) -> TryLockResult<MutexGuard<'_, T>> {
+            // not used by the modelled sources; never a controller step
+            match self.inner.try_lock() {
+                Ok(g) => Ok(MutexGuard { g: Some(g), m: self, tid: None }),
+                Err(TLErr::Poisoned(p)) => {
+                    Err(TLErr::Poisoned(PErr::new(MutexGuard { g: Some(p.into_inner()), m: self, tid: None })))
+                }
+                Err(TLErr::WouldBlock) => Err(TLErr::WouldBlock),
+            }
+        }
+
+        pub fn is_poisoned(&self) -> bool {
+            self.inner.is_poisoned()
+        }
+
+        pub fn get_mut(&mut self) -> LockResult<&mut T> {
+            self.inner.get_mut()
+        }
+    }
+
+    impl<T> From<T> for Mutex<T> {
+        fn from(t: T) -> Self {
+            Self::new(t)
+        }
+    }
+
+    impl<T: ?Sized + fmt::Debug> fmt::Debug for Mutex<T> {
+        fn fmt(&self, f: &mut fmt::Formatter<'_>) -> fmt::Result {
+            fmt::Debug::fmt(&self.inner, f)
+        }
+    }
+
+    impl<T: ?Sized> Deref for MutexGuard<'_, T> {
+        type Target = T;
+        #[inline]
+        fn deref(&self) -> &T {
+            self.g.as_ref().expect("verif_std: guard in use")
+        }
+    }
+
+    impl<T: ?Sized> DerefMut for MutexGuard<'_, T> {
+        #[inline]
+        fn deref_mut(&mut self) -> &mut T {
+            self.g.as_mut().expect("verif_std: guard in use")
+        }
+    }
+
+    impl<T: ?Sized> Drop for MutexGuard<'_, T> {
+        fn drop(&mut self) {
+            match self.tid {
+                Some(me) => {
+                    super::ctl::unlock_pre(me);
+                    drop(self.g.take());
+                    super::ctl::unlock_post(me, self.m.addr());
+                }
+                None => drop(self.g.take()),
+            }
+        }
+    }
+
+    impl<T: ?Sized + fmt::Debug> fmt::Debug for MutexGuard<'_, T> {
+        fn fmt(&self, f: &mut fmt::Formatter<'_>) -> fmt::Result {
+            fmt::Debug::fmt(&**self, f)
+        }
+    }
+
+    impl<T: ?Sized + fmt::Display> fmt::Display for MutexGuard<'_, T> {
+        fn fmt(&self, f: &mut fmt::Formatter<'_>) -> fmt::Result {
+            fmt::Display::fmt(&**self, f)
+        }
+    }
+
+    /// `std::sync::Condvar`.  On a controlled thread `wait` is two steps (release the mutex and
+    /// enter the wait set; re-acquire after a notify) and the notifies are one step each; there
+    /// are no spurious wake-ups under the controller.
+    #[derive(Default)]
+    pub struct Condvar {
+        inner: ::std::sync::Condvar,
+    }
+
+    impl Condvar {
+        #[inline]
+        pub const fn new() -> Self {
+            Self { inner: ::std::sync::Condvar::new() }
+        }
+
+        #[inline]
+        fn addr(&self) -> usize {
+            self as *const Self as usize
+        }
+
+        pub fn wait<'a, T>(&self, mut guard: MutexGuard<'a, T>) -> LockResult<MutexGuard<'a, T>> {
+            match guard.tid {
+                Some(me) if super::ctl::tid() == Some(me) => {
+                    super::ctl::cv_wait_pre(me);
+                    drop(guard.g.take());
+                    super::ctl::cv_wait(me, self.addr(), guard.m.addr());
+                    match guard.m.inner.lock() {
+                        Ok(g) => {
+                            guard.g = Some(g);
+                            Ok(guard)
+                        }
+                        Err(p) => {
+                            guard.g = Some(p.into_inner());
+                            Err(PErr::new(guard))
+                        }
+                    }
+                }
+                _ => {
+                    let g = guard.g.take().expect("verif_std: guard in use");
+                    match self.inner.wait(g) {
+                        Ok(g) => {
+                            guard.g = Some(g);
+                            Ok(guard)
+                        }
+                        Err(p) => {
+                            guard.g = Some(p.into_inner());
+                            Err(PErr::new(guard))
+                        }
+                    }
+                }
+            }
+        }
+
+        pub fn wait_while<'a, T, F>(&self, mut guard: MutexGuard<'a, T>, mut condition: F) -> LockResult<MutexGuard<'a, T>>
+        where
+            F: FnMut(&mut T) -> bool,
+        {
+            while condition(&mut *guard) {
+                guard = match self.wait(guard) {
+                    Ok(g) => g,
+                    Err(p) => return Err(p),
+                };
+            }
+            Ok(guard)
+        }
+
+        pub fn notify_all(&self) {
+            super::ctl::notify(self.addr(), true);
+            self.inner.notify_all();
+        }
+
+        pub fn notify_one(&self) {
+            super::ctl::notify(self.addr(), false);
+            self.inner.notify_one();
+        }
+    }
+
+    impl fmt::Debug for Condvar {
+        fn fmt(&self, f: &mut fmt::Formatter<'_>) -> fmt::Result {
+            fmt::Debug::fmt(&self.inner, f)
+        }
+    }
+}
